@@ -141,6 +141,10 @@ pub struct Shared {
     pub next_id: AtomicU64,
     /// log `enabled`/`register_callsite`/`max_level_hint` queries too
     pub log_queries: bool,
+    /// per logical thread: ids entered and not yet exited (most recent last); drives
+    /// `current_span` so that `Span::current()` works against this collector
+    pub stacks: Mutex<std::collections::HashMap<u8, Vec<u64>>>,
+    pub metas: Mutex<std::collections::HashMap<u64, &'static Metadata<'static>>>,
 }
 
 impl Shared {
@@ -169,6 +173,8 @@ impl RecCollector {
             spec: Mutex::new(spec),
             next_id: AtomicU64::new(1),
             log_queries,
+            stacks: Mutex::new(Default::default()),
+            metas: Mutex::new(Default::default()),
         });
         (RecCollector(s.clone()), s)
     }
@@ -233,6 +239,7 @@ impl Collect for RecCollector {
         a.record(&mut g);
         c.fields = g.0;
         self.0.push(c);
+        self.0.metas.lock().unwrap().insert(id, a.metadata());
         span::Id::from_u64(id)
     }
     fn record(&self, id: &span::Id, values: &span::Record<'_>) {
@@ -263,9 +270,15 @@ impl Collect for RecCollector {
     }
     fn enter(&self, id: &span::Id) {
         self.0.push(Call::of_id(Kind::Enter, id));
+        self.0.stacks.lock().unwrap().entry(tag()).or_default().push(id.into_u64());
     }
     fn exit(&self, id: &span::Id) {
         self.0.push(Call::of_id(Kind::Exit, id));
+        let mut st = self.0.stacks.lock().unwrap();
+        let v = st.entry(tag()).or_default();
+        if let Some(p) = v.iter().rposition(|x| *x == id.into_u64()) {
+            v.remove(p);
+        }
     }
     fn clone_span(&self, id: &span::Id) -> span::Id {
         self.0.push(Call::of_id(Kind::CloneSpan, id));
@@ -276,7 +289,11 @@ impl Collect for RecCollector {
         false
     }
     fn current_span(&self) -> span::Current {
-        span::Current::unknown()
+        let top = self.0.stacks.lock().unwrap().get(&tag()).and_then(|v| v.last().copied());
+        match top.and_then(|id| self.0.metas.lock().unwrap().get(&id).map(|m| (id, *m))) {
+            Some((id, m)) => span::Current::new(span::Id::from_u64(id), m),
+            None => span::Current::none(),
+        }
     }
 }
 
